@@ -24,6 +24,9 @@ CHECKS = {
  "C13": dict(cat="exploration", ref="§3 C13",
    text="Exhaustive bounded input enumeration against a crash / hang / allocation / still-usable oracle, executed in worker subprocesses with an address-space limit: all short byte strings over a boundary alphabet into every binary parser, all short strings over the s-expression alphabet into the key-file readers, every truncation / deletion / length-word substitution of valid key serialisations and of a libotr key file, 15 conversation states × structure-aware mutations of every genuine message kind, marker and fragment-header variants and authenticated-but-malicious TLV payloads into Receive, and every index at which a read of the randomness source fails or is short.",
    tech="exhaustive bounded enumeration of inputs and fault points (each case one execution of the real code under recover, allocation metering and a process-level watchdog)"),
+ "C17": dict(cat="exploration", ref="§3 C17",
+   text="Exhaustive small-domain enumeration (full products of boundary values, no random generation) of every protocol structure: value→bytes→value equality, length prefixes equal to content lengths, minimal MPIs, bytes→value→bytes on every input the parsers accept from the C13 byte-string domain; DSA keys derived to hit odd hex digit counts, short x / y and embedded zero bytes: wire form, fingerprint against an independent SHA-1 over the specification's layout, key-file export→import (both importers) with every short account name over a 12-character alphabet; TLV payloads too long for the 16-bit length through the public API.",
+   tech="exhaustive bounded enumeration of values (round-trip oracle on the real serialisers/parsers)"),
 }
 NA_REASON = "check not built yet (work in progress; see DESIGN.md §3 for the planned bounded exploration)"
 def main():
